@@ -1095,3 +1095,44 @@ func VerifC12EmptyInputPaths() {
 	vf.Assert("same-bytes-on-every-input-path", got == ref)
 	vf.Reach("end")
 }
+
+// VerifC15DescribeCmd: `info attr describe -t A -r ROOT [-s]` through the real command for
+// all 21 roots: the root is echoed as given and the applied note is root + interval, spelled
+// natural when possible and otherwise with the requested accidental.
+func VerifC15DescribeCmd() {
+	l := vf.NondetIntRange("root.letter", 0, 6)
+	a := vf.NondetIntRange("root.acc", -1, 1)
+	sharp := vf.NondetIntRange("sharp", 0, 1) == 1
+	attr := []struct {
+		name string
+		size int
+	}{{"Major3", 4}, {"Perfect5", 7}, {"Minor7", 10}, {"Augmented11", 18}}[vf.NondetIntRange("attr", 0, 3)]
+	root := verifNoteText(l, a)
+	flags := []string{"--output", "", "--target", attr.name, "--root", root}
+	if sharp {
+		flags = append(flags, "--precedeSharp")
+	} else {
+		flags = append(flags, "--precedeSharp=false")
+	}
+	vf.Assert("flags-parse", infoCmdAttrDescribe.ParseFlags(flags) == nil)
+	out, err := verifCapture("attrdesc-out.txt", func() error { return infoCmdAttrDescribe.RunE(infoCmdAttrDescribe, nil) })
+	vf.Assert("every-root-is-described", err == nil && out != "")
+	if err != nil {
+		return
+	}
+	nat := [7]int{0, 2, 4, 5, 7, 9, 11}
+	pc := ((nat[l]+a+attr.size)%12 + 12) % 12
+	names := map[int]string{0: "C", 2: "D", 4: "E", 5: "F", 7: "G", 9: "A", 11: "B"}
+	want, white := names[pc]
+	if !white {
+		if sharp {
+			want = names[pc-1] + "#"
+		} else {
+			want = names[(pc+1)%12] + "b"
+		}
+	}
+	roots, applied := verifYAMLValues(out, "root"), verifYAMLValues(out, "applied")
+	vf.Assert("root-echoed", len(roots) == 1 && roots[0] == root)
+	vf.Assert("applied-note-is-root-plus-interval-as-spelled", len(applied) == 1 && applied[0] == want)
+	vf.Reach("end")
+}
